@@ -28,9 +28,11 @@ PORTS = ['g1', 'g2', 'g3']
 
 @st.composite
 def resident_desc(draw, inc_ok):
+    step = draw(st.booleans())
     return {'ts': draw(st.sampled_from([1.0, 1.0, 1.5, 2.0, 0.5])),
             'inc': draw(st.integers(0, 1)) if inc_ok else 0,
-            'step': draw(st.booleans()), 'deriver': draw(st.integers(0, 3)) == 0}
+            'step': step, 'deriver': draw(st.integers(0, 3)) == 0,
+            'chain': step and draw(st.booleans())}
 
 
 @st.composite
@@ -89,11 +91,13 @@ def histories(draw, viewers=False, residents=False, inc_ok=False,
                 op = {'op': 'add', 'coll': draw(st.sampled_from(PORTS)),
                       'key': fresh(), 'state': state()}
                 if draw(st.integers(0, 5)) == 0:
-                    # add and delete one key in the same batch
+                    # add and delete one key in the same batch (additions
+                    # first, deletions last: the key ends up absent)
                     batch.append(op)
                     used.add(op['key'])
-                    op = {'op': 'delete', 'coll': op['coll'],
-                          'key': op['key'], 'form': 'key'}
+                    batch.append({'op': 'delete', 'coll': op['coll'],
+                                  'key': op['key'], 'form': 'key'})
+                    continue
             elif kind == 'generate':
                 op = {'op': 'generate', 'coll': draw(st.sampled_from(PORTS)),
                       'key': fresh(), 'state': state(), 'resident': None}
@@ -168,6 +172,15 @@ def histories(draw, viewers=False, residents=False, inc_ok=False,
             'op_is_step': bool(step_op_ok and not expect_reject
                                and draw(st.integers(0, 3)) == 0),
             'viewers': [], 'expect_reject': expect_reject}
+    # call chunking: the history runs in calls of these lengths (in ticks);
+    # long calls leave residents' updates in flight when structure changes
+    total = nticks + 1
+    chunks = []
+    while total > 0:
+        c = draw(st.integers(1, total))
+        chunks.append(c)
+        total -= c
+    spec['chunks'] = chunks
     if spec['op_is_step']:
         # the operator step issues one batch per step phase: keep exactly one
         # phase per simulated second (resident timesteps 1 or 2)
@@ -289,6 +302,8 @@ def expected_resident_names(model):
         names = ['grow']
         if res.get('step'):
             names.append('obs')
+            if res.get('chain'):
+                names.append('obs2')
         if res.get('deriver'):
             names.append('der')
         out[path] = sorted(names)
@@ -447,8 +462,9 @@ def run_views(spec, res):
     try:
         engine = Engine(**build(spec, ctx))
         ctx.engine = engine
-        for t in range(len(spec['ticks']) + 2):
-            engine.update(1)
+        for c in spec.get('chunks') or [1] * (len(spec['ticks']) + 1):
+            engine.update(c)
+        engine.update(1)
         viewers = {v['name']: v for v in spec['viewers']}
         calls = {}
         op_times = [ev[2] for ev in ctx.log if ev[0] == 'op' and ev[4]]
